@@ -60,9 +60,10 @@ def replay_schedule(exe, scenario, schedule, bound, dpoints=1, horizon=20000, co
     return r.returncode != 0, obs
 
 
-def explore_all(rep, harness, scenarios, bound, budget_per_scenario=None, dpoints=1, deadline=None, horizon=20000, classify=None, jobs=None, chunk=64):
+def explore_all(rep, harness, scenarios, bound, budget_per_scenario=None, dpoints=1, deadline=None, horizon=20000, classify=None, jobs=None, chunk=64, exe=None,
+                extra_replay=None):
     """scenarios: list of scenario indices. Adds coverage to rep; records violations (replayed twice first)."""
-    exe = build_harness(harness)
+    exe = exe or build_harness(harness)
     descs = dict(list_scenarios(exe))
     scenarios = list(scenarios)
     csz = max(1, min(chunk, (len(scenarios) + 4 * NCPU - 1) // (4 * NCPU)))
@@ -106,7 +107,7 @@ def explore_all(rep, harness, scenarios, bound, budget_per_scenario=None, dpoint
                 continue
             rep.violation("%s [%s]: %s: %s" % (harness, res["desc"], v["kind"], v["obs"][:400]),
                           {"kind": "vsched", "harness": harness, "scenario": res["scenario"], "desc": res["desc"], "bound": bound, "dpoints": dpoints,
-                           "horizon": horizon, "schedule": v["schedule"], "conflicts": v.get("conflicts", []), "threads": v.get("threads"), "observation": v["obs"], "violation_kind": v["kind"]})
+                           "horizon": horizon, "extra": extra_replay, "schedule": v["schedule"], "conflicts": v.get("conflicts", []), "threads": v.get("threads"), "observation": v["obs"], "violation_kind": v["kind"]})
         if deadline is not None and deadline.expired():
             rep.capped("deadline")
             break
